@@ -181,6 +181,8 @@ def canon_exc(e):
 def canon_msg(m):
     if not isinstance(m, Msg):
         return ["yld", "?not-a-Msg:" + repr(m)[:40]]
+    if m.command == "pause":
+        return ["yld", 777]
     return ["yld", m.obj]
 
 
